@@ -65,11 +65,15 @@ def pBal (s : String) : Option (List BalEnt) :=
       match cnt with
       | none => none
       | some cnt =>
+        -- `^c` / `^d`: vesting schedule (no effect on the modelled observables)
+        let vest := e.endsWith "^c" ∨ e.endsWith "^d"
+        let e := if vest then (e.dropEnd 2).toString else e
         match e.splitOn ":" with
         | a :: c :: more =>
           match pAddr a, pCoins (":".intercalate (c :: more)) with
           | some ad, some cs =>
             if ad = 0 then none else
+            if vest ∧ cs.isEmpty then none else
             if total + cnt > maxBalance then none else go rest (total + cnt) (⟨ad, cnt, cs⟩ :: acc)
           | _, _ => none
         | _ => none
